@@ -297,6 +297,7 @@ def observe_realloc(ts, mu, **kw):
         arr = self.edge_likelihoods if seg else self.sizebiased_likelihoods
         snap["before"] = arr[:, 0].copy()
         snap["seg"] = seg
+        snap["args"] = (a, dict(k))
         r = o_resc(self, *a, **k)
         snap["after"] = arr[:, 0].copy()
         return r
@@ -325,6 +326,16 @@ def observe_realloc(ts, mu, **kw):
         sing.append({"b": b + 1, "first": first, "q": int(round(float(q) * U))})
     ev = {"blocks": blocks, "sing": sing, "before": [int(round(x * U)) for x in snap["before"]],
           "after": [int(round(x * U)) for x in snap["after"]], "n_switched": switched, "segsites": bool(snap["seg"])}
+    # the rescaling step once more on the same fit object (added after seed C23-b: a reallocation that moves shares
+    # instead of rebuilding them is right the first time only); phases and placements do not change in rescale()
+    try:
+        a, k = snap["args"]
+        with np.errstate(all="ignore"):
+            o_resc(fit, *a, **k)
+        arr = fit.edge_likelihoods if snap["seg"] else fit.sizebiased_likelihoods
+        ev["after2"] = [int(round(x * U)) for x in arr[:, 0]]
+    except Exception:  # noqa: BLE001  (internal errors of a second rescale are not this property's subject)
+        ev["after2"] = None
     return ev, call
 
 
